@@ -73,10 +73,10 @@ func relRange(t *pt.Term, i int, memo map[*pt.Term][3]int, arrays map[string]boo
 type sigger struct {
 	noShift bool
 	arrays  map[string]bool
-	i      int
-	global map[string]bool
-	rr     map[*pt.Term][3]int
-	memo   map[*pt.Term]string
+	i       int
+	global  map[string]bool
+	rr      map[*pt.Term][3]int
+	memo    map[*pt.Term]string
 }
 
 func (s *sigger) sig(t *pt.Term, depth int) string {
